@@ -94,6 +94,9 @@ func mutateJNode(t *rapid.T, n JNode) JNode {
 	case "str":
 		return JNode{K: "str", S: n.S + rapid.SampledFrom([]string{" ", "x", "\n", "é"}).Draw(t, "sfx")}
 	case "num":
+		if nb, ok := numNeighbour(n.Num); ok && rapid.Bool().Draw(t, "neighbour") {
+			return JNode{K: "num", Num: nb}
+		}
 		alt := rapid.SampledFrom(jsonNums).Draw(t, "altnum")
 		if alt == n.Num {
 			alt = "77"
